@@ -214,6 +214,31 @@ theorem rotateTo_polygon (g : Poly) (c s : Rat) (p : Pt) (ε : Rat)
   simp only [Roi.rotateTo, hnot, Bool.false_eq_true, if_false, Impl.contains]
   exact polyTurn_impl _ _ _ hd g.vs p h3 (offBoundary_of_not_near _ _ ε hfar)
 
+/-- **`polygon_centroid_rotate`**: `center()` as coded turns with the polygon (any centre of rotation). -/
+theorem polygon_centroid_rotate (ctr : Pt) (c s : Rat) (hu : c * c + s * s = 1) (vs : List Pt) (h : vs ≠ []) :
+    polyCenter (vs.map (rotAbout ctr c s)) = rotAbout ctr c s (polyCenter vs) :=
+  polyCenter_rot ctr c s hu vs h
+
+/-- **`rotate_to` keeps the reported centre** — rectangle, ellipse, polygon (which is turned about
+its own `center()`); the other classes have no `rotate_to`. -/
+theorem center_rotateTo (roi : Roi) (c s : Rat) (hu : c * c + s * s = 1)
+    (ho : (Spec.orient roi).1 * (Spec.orient roi).1 + (Spec.orient roi).2 * (Spec.orient roi).2 = 1)
+    (hdef : roi.defined = true) : (roi.rotateTo c s).center = roi.center := by
+  cases roi with
+  | poly g =>
+    have hne : g.vs ≠ [] := by intro h; simp [Roi.defined, h] at hdef
+    simp only [Spec.orient] at ho
+    have hd : (c * g.c + s * g.s) * (c * g.c + s * g.s) + (s * g.c - c * g.s) * (s * g.c - c * g.s) = 1 := by
+      have : (c * g.c + s * g.s) * (c * g.c + s * g.s) + (s * g.c - c * g.s) * (s * g.c - c * g.s)
+          = (c * c + s * s) * (g.c * g.c + g.s * g.s) := by ring
+      rw [this, hu, ho, mul_one]
+    simp only [Roi.rotateTo]
+    split
+    · rfl
+    · show polyCenter (g.vs.map _) = polyCenter g.vs
+      rw [polyCenter_rot _ _ _ hd g.vs hne, rotAbout_self]
+  | _ => rfl
+
 /-- The band used by the check contains the boundary: a point outside `polyNear` (any width) lies
 on no edge. -/
 theorem polygon_band_contains_boundary (vs : List Pt) (p : Pt) (ε : Rat) (h : polyNear vs p ε = false) :
